@@ -1,5 +1,155 @@
 import AiocoapModel.Basic.Bytes
-/-! Line protocol for C09 (not built yet). -/
+import AiocoapModel.Render.Render
+import AiocoapModel.MsgLayer.Model
+/-! Line protocol for C09.
+
+`C09 nosite|site <res>* -- <event>*`
+
+resource  `res:<path>:<method>=<outcome>,<method>=<outcome>…`   path = segments joined by `/`
+outcome   `r.<code|->.<payloadhex|->.<nr|->`   returns a message
+          `e.<code>.<diaghex|->`               raises a renderable error
+          `x.<texthex|->`                      raises another exception
+          `n.<texthex|->`                      returns something that is not a message
+          `q.<texthex|->` / `z`                renderable error whose to_message raises / returns None
+          `c`                                  raises CancelledError        `h`  never returns
+event     `D@<tick>:<id>:<code>:<path>:<tokenhex>:<nr|->`   request `id` delivered
+          `C@<tick>:<id>`   its handler coroutine runs to the end      `S@<tick>:<id>`   stop()
+
+Output: one group per distinct consecutive tick, separated by `|`; a group is the sorted list
+(`;`) of `S<id>:<token>:<code>:<payload>:<nr>:<last>` (send_message calls), `U<id>` (entry removed),
+`K<id>` (a still running handler is cancelled), `L:<kind>` (log records at WARNING and above);
+then ` # ` and the sorted list of response datagrams that reach the wire (`<token>:<code>:<payload>`,
+i.e. the sends the message layer's No-Response rule does not suppress).
+-/
+namespace Aiocoap.Render
+
+def parseOptNat (s : String) : Option (Option Nat) :=
+  if s = "-" then some none else s.toNat?.map some
+
+def parsePath (s : String) : List String :=
+  if s = "" then [] else s.splitOn "/"
+
+def parseOutcome (s : String) : Option Outcome :=
+  match s.splitOn "." with
+  | ["r", c, p, nr] => do
+    pure (.returns (← parseOptNat c) (← hexToBytes p) (← parseOptNat nr))
+  | ["e", c, d] => do pure (.raisesRenderable (← c.toNat?) (← hexToBytes d))
+  | ["x", t] => do pure (.raisesOther (← hexToBytes t))
+  | ["n", t] => do pure (.returnsNonMessage (← hexToBytes t))
+  | ["q", t] => do pure (.rendererFails false (← hexToBytes t))
+  | ["z"] => some (.rendererFails true [])
+  | ["c"] => some .raisesCancelled
+  | ["h"] => some .neverReturns
+  | _ => none
+
+def parseHandler (s : String) : Option (Nat × Outcome) :=
+  match s.splitOn "=" with
+  | [m, o] => do pure (← m.toNat?, ← parseOutcome o)
+  | _ => none
+
+def parseResource (s : String) : Option (List String × Resource) :=
+  match s.splitOn ":" with
+  | ["res", path, hs] => do
+    let hs ← (if hs = "" then some [] else (hs.splitOn ",").mapM parseHandler)
+    pure (parsePath path, hs)
+  | _ => none
+
+def parseIn (s : String) : Option (Nat × In) :=
+  match s.splitOn "@" with
+  | [kind, rest] =>
+    match kind, rest.splitOn ":" with
+    | "D", [t, id, code, path, tok, nr] => do
+      pure (← t.toNat?, .deliver (← id.toNat?)
+        { code := ← code.toNat?, path := parsePath path, token := ← hexToBytes tok,
+          noResponse := ← parseOptNat nr })
+    | "C", [t, id] => do pure (← t.toNat?, .complete (← id.toNat?))
+    | "S", [t, id] => do pure (← t.toNat?, .stop (← id.toNat?))
+    | _, _ => none
+  | _ => none
+
+def optNatStr : Option Nat → String
+  | none => "-"
+  | some n => toString n
+
+def logStr : LogKind → String
+  | .unhandled => "unhandled" | .rendererFailed => "rendererFailed" | .tmGotError => "tmGotError"
+  | .discarded => "discarded" | .lateResponse => "lateResponse"
+
+/-- is this response outside what the model covers (block-wise transfer, non-response code)? -/
+def outcomeOutOfModel : Outcome → Bool
+  | .returns c p _ => p.length > 1024 || (match c with
+      | some c => !(64 ≤ c && c < 192)
+      | none => false)
+  | .raisesRenderable c d => d.length > 1024 || !(64 ≤ c && c < 192)
+  | _ => false
+
+def effStr (running : Bool) (o : Out) : List String :=
+  match o.eff with
+  | .send m l =>
+    [s!"S{o.id}:{bytesToHex o.token}:{m.code}:{bytesToHex m.payload}:{optNatStr m.noResponse}:{if l then 1 else 0}"]
+  | .unregister => [s!"U{o.id}"]
+  | .cancelTask => if running then [s!"K{o.id}"] else []
+  | .log k => [s!"L:{logStr k}"]
+  | .strayTombstone => ["BUG:strayTombstone"]
+
+/-- the response as the message layer's `send_message` judges it for No-Response -/
+def asOutMsg (m : Resp) : MsgLayer.OutMsg :=
+  { mtype := none, reliability := none, code := m.code, obs := none, body := 0,
+    noResponse := m.noResponse.getD 0, maxRetr := 4 }
+
+def wireStr (o : Out) : List String :=
+  match o.eff with
+  | .send m _ =>
+    if MsgLayer.suppressed (asOutMsg m) then []
+    else [s!"{bytesToHex o.token}:{m.code}:{bytesToHex m.payload}"]
+  | _ => []
+
+def sortStrs (l : List String) : List String := l.mergeSort (fun a b => decide (a ≤ b))
+
+/-- was the handler coroutine of the request named by a `stop` still running? -/
+def stillRunning (s : Sys) : In → Bool
+  | .stop id => match s.entries id with
+    | some e => !e.finished
+    | none => false
+  | _ => false
+
+/-- run the timed inputs; returns (groups in order with their tick, wire entries) -/
+def runTimed (s : Sys) (groups : List (Nat × List String)) (wire : List String) :
+    List (Nat × In) → List (Nat × List String) × List String
+  | [] => (groups.reverse, wire)
+  | (t, a) :: rest =>
+    let r := step s a
+    let items := r.2.flatMap (effStr (stillRunning s a))
+    let w := r.2.flatMap wireStr
+    let groups' := match groups with
+      | (t', g) :: gs => if t' = t then (t, g ++ items) :: gs else (t, items) :: (t', g) :: gs
+      | [] => [(t, items)]
+    runTimed r.1 groups' (wire ++ w) rest
+
+def handleC09 (args : List String) : String :=
+  match args with
+  | siteTag :: rest =>
+    let resArgs := rest.takeWhile (· ≠ "--")
+    let evArgs := (rest.dropWhile (· ≠ "--")).drop 1
+    if !(rest.contains "--") then "bad-op" else
+    match resArgs.mapM parseResource, evArgs.mapM parseIn with
+    | some res, some evs =>
+      let site : Option (Option Site) :=
+        if siteTag = "nosite" then (if res.isEmpty then some none else none)
+        else if siteTag = "site" then some (some { resources := res })
+        else none
+      match site with
+      | none => "bad-op"
+      | some site =>
+        if res.any (fun r => r.2.any (fun h => outcomeOutOfModel h.2)) then "out-of-model" else
+        let (groups, wire) := runTimed (Sys.init site) [] [] evs
+        "|".intercalate (groups.map fun g => ";".intercalate (sortStrs g.2)) ++ " # " ++
+          ";".intercalate (sortStrs wire)
+    | _, _ => "bad-op"
+  | _ => "bad-op"
+
+end Aiocoap.Render
+
 namespace Aiocoap
-def handleC09 (_args : List String) : String := "out-of-model"
+def handleC09 (args : List String) : String := Render.handleC09 args
 end Aiocoap
